@@ -208,7 +208,25 @@ TEXT_ATOMS = ["(", ")", "(", ")", "[", "]", "'", "`", ",", ",@", "#(", "#u8(", "
               "\\x41;", "\\x", "99999999999999999999", ".5", "-.5e-5", "+inf.0", "+nan.0", "nan", "#u8", "#f32(", "1.", "#e1.2", "#x-ff/a"]
 
 
+def gen_label_text(rng):
+    """datum labels: ascending definitions with gaps (the reader's label table grows at 23, 47, ...) and references to
+    defined, undefined, huge and overflowing label numbers"""
+    items = []
+    lab = rng.choice([0, 0, 1, 7, 15])
+    labs = []
+    for _ in range(rng.choice([1, 2, 3, 5, 8])):
+        labs.append(lab)
+        items.append("#%d=%s" % (lab, rng.choice(["a", "(b)", "\"s\"", "#(1 2)", "(x . y)"])))
+        lab += rng.choice([1, 1, 2, 8, 15, 16, 16, 17])
+    for _ in range(rng.choice([1, 2, 4])):
+        ref = rng.choice(labs + [labs[-1] + 1, labs[-1] + 17, 22, 23, 24, 46, 47, 48, 95, 96, 500, 100000, 4294967295, 4294967296 + labs[0], 10 ** 20])
+        items.insert(rng.randrange(len(items) + 1), "#%d#" % ref)
+    return "(" + " ".join(items) + ")"
+
+
 def gen_text(rng):
+    if rng.random() < 0.2:
+        return gen_label_text(rng)
     n = rng.choice([1, 2, 3, 5, 8, 12, 20, 40])
     s = "".join(rng.choice(TEXT_ATOMS) for _ in range(n))
     if rng.random() < 0.3:
@@ -227,8 +245,23 @@ def gen_text(rng):
     return s
 
 
+DEEP = ["(deep-car 1000000)", "(deep-car 150000)", "(deep-vec 400000)", "(deep-list 1000000)", "(long-list 1000000)"]
+
+
 def gen_case(rng, table, names, known=(), excl=[0]):
     r = rng.random()
+    if r < 0.04:
+        # one call whose arguments are huge / deeply nested data (nested through a non-last slot, through vectors,
+        # through the last slot, or simply long); decided on the plain build with the default C stack
+        name = rng.choice(names)
+        while name in NEVER_WITH_ARGS or name in EXITS:
+            name = rng.choice(names)
+        a = max(1, table[name]["arity"])
+        d = rng.choice(DEEP)
+        args = [["list", d if (i == 0 or rng.random() < 0.6) else rng.choice(DEEP)] for i in range(min(a, 3))]
+        if table[name]["arity"] >= 2 and rng.random() < 0.3:
+            args[rng.randrange(len(args))] = ["fixnum", rng.choice(["0", "1", "100000"])]
+        return {"kind": "calls", "deep": True, "steps": [{"proc": name, "args": args}]}
     if r < 0.12:
         return {"kind": "text", "text": gen_text(rng), "how": rng.choice(["read", "eval", "string->number", "read-all", "native-read", "native-read", "native-eval"])}
     if r < 0.15:
@@ -377,6 +410,8 @@ def run_case(ctx, case, variant):
 def classify(case):
     if case["kind"] != "calls":
         return case["kind"] + ":" + case.get("how", case.get("shape", ""))
+    if case.get("deep"):
+        return "calls:deep-data"
     return None
 
 
@@ -444,7 +479,7 @@ def run_shard(spec):
         for it in range(n):
             case = gen_case(rng, ctx.table, ctx.names, spec["known"], excl)
             variant = "asan"
-            if case["kind"] == "nest":
+            if case["kind"] == "nest" or case.get("deep"):
                 variant = "plain"       # deep nesting is decided on the build users run (default 8 MB C stack)
             if case["kind"] == "calls":
                 key = tuple((s["proc"], tuple(a[1] for a in s["args"] if a[0] == "list")) for s in case["steps"])
